@@ -390,6 +390,42 @@ def check_C13(ctx, w):
     tests = mc_tests(ctx, w, "mc", slots=ctx.q(2, 3), kvals=2, avals=2, maxbatch=1, maxops=ctx.q(3, 4), bfilter="NoBatch", get=False, limit=ctx.q(2000, 30000))
     tests += gen_tests(ctx, ctx.q(200, 3000), gen.order_test, "ord", nobj=ctx.q(6, 10), nq=ctx.q(8, 12))
     seq_pipeline(ctx, w, tests, ["Conf_C13"])
+    search_model(ctx, w)
+
+
+SEARCH_CFG = """SPECIFICATION Spec
+CONSTANTS
+  Keys = {%(keys)s}
+  Limits = {%(limits)s}
+  MaxVals = %(maxvals)d
+  MaxSteps = %(maxsteps)d
+  Dev = {%(dev)s}
+INVARIANTS CollectExact TypeOK
+%(props)s
+CHECK_DEADLOCK FALSE
+"""
+
+
+def search_model(ctx, w):
+    """C13 / C20 at design level (spec/SodSearch.tla): a search value = matches in index order + the sticky settings Limit and
+    Reverse; collecting is an observation, a refinement is a new value.  The deviations (what F31 and seed C13-e did) must
+    break CollectExact, otherwise the model would say nothing."""
+    kw = dict(keys=ctx.q("1, 2, 3", "1, 2, 3, 4"), limits=ctx.q("0, 1, 2", "0, 1, 2, 5"), maxvals=ctx.q(2, 3), maxsteps=ctx.q(5, 6))
+    r = vlib.tlc("SodSearch", SEARCH_CFG % dict(dev="", props="PROPERTIES CollectIsObservation RefineIsNew", **kw), w.sub("searchm"), workers=vlib.NCPU, timeout=1200, heap="6g")
+    ctx.mc_states += r.distinct
+    ctx.mc_transitions += r.generated
+    ctx.extra_cov["search_model_states"] = r.distinct
+    log("  [SodSearch] design-level model of search values: %d states, %s" % (r.distinct, "CollectExact, CollectIsObservation, RefineIsNew hold" if r.completed else "** " + ", ".join(r.violated)))
+    if not r.completed:
+        raise vlib.Inconclusive("the design-level model of search values does not hold (model result):\n" + r.out[-2500:])
+    broke = {}
+    for dv in ("SpentLimit", "InheritLimit"):
+        r1 = vlib.tlc("SodSearch", SEARCH_CFG % dict(dev='"%s"' % dv, props="", keys="1, 2, 3", limits="0, 1, 2", maxvals=2, maxsteps=5), w.sub("searchm-" + dv), workers=4, timeout=600, heap="3g")
+        broke[dv] = "CollectExact" in " ".join(r1.violated)
+    log("  [SodSearch] each deviation breaks CollectExact: %s" % broke)
+    ctx.extra_cov["search_model_deviations_break_it"] = broke
+    if not all(broke.values()):
+        raise vlib.Inconclusive("a deviation of SodSearch no longer breaks CollectExact: the model has become vacuous")
 
 
 def check_C16(ctx, w):
@@ -1168,7 +1204,7 @@ META = {
     "C07": dict(level="model_checking", technique=TECH,
                 text="BatchRefines (the code's validation rule lies between MustReject and MustAccept of the abstract statement) is checked by TLC on every reachable state x every batch of the bounded model; every such batch is executed on the real code and TLC checks n in {0,len}, mandatory rejection / acceptance, and, for Bulk, chunk-wise application in arrival order stopping at the first failing chunk"),
     "C13": dict(level="model_checking", technique=TECH,
-                text="TLC checks on recorded eval/collect events that Collect of a single comparison or And-chain ending on an indexed field is an admissible prefix (LimitOK: non-increasing / Reverse non-decreasing, exactly min(n, matches), tie-agnostic), One = first element or the no-object error, AssignIndex = multiset of all values in non-increasing order"),
+                text="TLC checks on recorded eval/collect events that Collect of a single comparison or And-chain ending on an indexed field is an admissible prefix (LimitOK: non-increasing / Reverse non-decreasing, exactly min(n, matches), tie-agnostic), One = first element or the no-object error, AssignIndex = multiset of all values in non-increasing order (fresh and pre-filled targets); a kept search value is collected twice and refined after collection with Limit / Reverse tracked as its sticky settings; design-level model SodSearch (collecting is an observation, a refinement is a new value, CollectExact; the deviations of F31 and of a seeded change must break it)"),
     "C15": dict(level="model_checking", technique=TECH,
                 text="ValidOK is an invariant of the design model; on the real code the driver's own Transform/Validate hooks log their calls and the values they see: TLC checks Transform-before-Validate per object, that Validate saw the transformed and canonicalised values, invalid <=> rejected with the invalid class, stored value = transformed value, on the single, batch and chunked paths"),
     "C16": dict(level="model_checking", technique=TECH,
